@@ -49,6 +49,15 @@ def check_writeback(w, rep):
     rep.floor("C12.writeback", 12)
 
 
+def principal(M, r):
+    """M on the principal MRP set |r|^2 <= 1 of the true attitude r: selections `1 < r.r` answered False.  The truth MRP is
+    shadow-switched after every step (decided below under C12.sensors), so the other side is never evaluated in a run."""
+    from .c07 import shadow_conditions
+    rr = cm.sumsqr(r).s()
+    sc = [c for c in shadow_conditions(M) if decide(c.single_atom().key[1], rr) == EQUAL]
+    return assign_ites(M, {c: False for c in sc}) if sc else M
+
+
 def check_sensors(w, rep):
     sim = w.mod(SIM)
     Mr = w.G("SO3Mrp")
@@ -64,7 +73,7 @@ def check_sensors(w, rep):
         if "measure_accel" in fs:
             f = fs["measure_accel"]
             I = dict(zip(f.in_names, f.ins))
-            y = zero_inputs(f, {"std_accel", "w_accel"})
+            y = principal(zero_inputs(f, {"std_accel", "w_accel"}), w.sl(I["x"], 0, 3))
             R = w.call(w.elem(Mr, w.sl(I["x"], 0, 3)), "to_Matrix")
             want = cm.matmul(cm.transpose(R), cm.ew(cm.to_mat([0, 0, -1]), I["g"], cm.pmul))
             verdict(rep, "C12.sensors", "noise-free accelerometer = R(r)^T (0, 0, -g) with R the MRP rotation matrix", y, want, (), W("measure_accel"), "simulated accelerometer does not rotate gravity with the true attitude")
@@ -72,7 +81,7 @@ def check_sensors(w, rep):
         if "measure_mag" in fs:
             f = fs["measure_mag"]
             I = dict(zip(f.in_names, f.ins))
-            y = zero_inputs(f, {"std_mag", "w_mag"})
+            y = principal(zero_inputs(f, {"std_mag", "w_mag"}), w.sl(I["x"], 0, 3))
             R = w.call(w.elem(Mr, w.sl(I["x"], 0, 3)), "to_Matrix")
             # field in the navigation frame = reading at the identity attitude (r = 0)
             from .c16 import subs_syms
@@ -142,8 +151,8 @@ def check_sensors(w, rep):
         if est and "measure_accel" in fs:
             g = est[-1]
             x, gg = w.sym("x", 6), w.sym("g")
-            ya = g(x, gg)
-            yb = fs["measure_accel"](x, gg, 0, MatVal(3, 1))
+            ya = principal(g(x, gg), w.sl(x, 0, 3))
+            yb = principal(fs["measure_accel"](x, gg, 0, MatVal(3, 1)), w.sl(x, 0, 3))
             verdict(rep, "C12.sensors", "estimator's accelerometer model = simulator's noise-free accelerometer", ya, yb, (), W("measure_accel"), "the estimator predicts a different accelerometer reading than the simulator produces for the same state")
     rep.floor("C12.sensors", 6)
 
